@@ -8,7 +8,7 @@ import shutil
 LEVEL = "model_checking"
 
 KINDS = ["File", "ContentFile", "IFile", "FileSet", "ContentFileSet", "IFileSet", "Dir", "ContentDir", "IDir"]
-OPS = ["delete", "truncate", "rewrite", "touch", "add-member", "remove-member", "rewrite-keep-stat", "none"]
+OPS = ["delete", "truncate", "rewrite", "touch", "add-member", "remove-member", "rewrite-keep-stat", "symlink-loop", "none"]
 NESTED_OPS = ["truncate-nested", "rewrite-nested", "touch-nested", "delete-nested"]  # Dir kinds only: a member inside a sub-directory
 COUNT = {"make": 0}
 
@@ -20,6 +20,8 @@ def tasks():
     def create(kind, path):
         C = getattr(rf, kind)
         if "File" in kind and "Set" not in kind:
+            if os.path.islink(path):
+                os.remove(path)  # a robust producer: whatever sits at the output path is replaced
             f = C(path)
             f.write(f"output-{kind}")
             return f
@@ -95,6 +97,14 @@ def apply_op(kind, path, op, step):
                 return False
             shutil.rmtree(path)
         return True
+    if op == "symlink-loop":
+        # the output is replaced by a symbolic link pointing at itself: it does not exist, but stat fails with ELOOP, not ENOENT
+        if not single or os.path.islink(path):
+            return False
+        if os.path.exists(path):
+            os.remove(path)
+        os.symlink(os.path.basename(path), path)
+        return True
     if op == "truncate":
         if not os.path.exists(target):
             return False
@@ -103,6 +113,8 @@ def apply_op(kind, path, op, step):
     if op == "rewrite":
         if not single and not os.path.isdir(path):
             return False
+        if os.path.islink(target):
+            os.remove(target)
         with open(target, "w") as f:
             f.write("external" + "x" * (step + 1))
         return True
@@ -280,7 +292,7 @@ def run(ctx):
         "re_executions_observed": sum(r["reexec"] for r in res), "exhaustive": True,
         "rule": f"for each of 9 file value classes, returned bare, nested in a list (thorough: dict), or held by keyword (thorough: also by position) in "
         "a lazy call that is the producer's cached result, every history of {L} external changes "
-        "(delete, truncate, rewrite with new size, touch with new logical mtime, same-length rewrite with the mtime restored, add member, remove member, the same on a member inside a "
+        "(delete, truncate, rewrite with new size, touch with new logical mtime, same-length rewrite with the mtime restored, replacement of a single file by a symbolic link to itself (absent, but stat fails with ELOOP), add member, remove member, the same on a member inside a "
         "sub-directory for Dir classes, nothing; delete followed by the re-run "
         "covers 'recreate'), each followed by a run of main -> make(path) on the shared backend; oracle: the run never raises, make re-executes "
         "iff the class is not immutable and the filesystem fingerprint (members with size+mtime, or content; computed by the harness, not by "
